@@ -4,6 +4,7 @@ pub mod c03;
 pub mod c04;
 pub mod c06;
 pub mod c07;
+pub mod c08;
 pub mod c14;
 pub mod common;
 
@@ -20,6 +21,9 @@ pub fn run(prop: &str, tier: Tier, seed: u64) -> i32 {
         "C05" => c04::run("C05", tier, seed, &findings),
         "C06" => c06::run(tier, seed, &findings),
         "C07" => c07::run(tier, seed, &findings),
+        "C08" => c08::run("C08", tier, seed, &findings),
+        "C09" => c08::run("C09", tier, seed, &findings),
+        "C10" => c08::run("C10", tier, seed, &findings),
         "C14" => c14::run(tier, seed, &findings),
         _ => {
             eprintln!("gev: unknown property {}", prop);
@@ -47,6 +51,9 @@ pub fn replay(path: &str) -> i32 {
         "C05" => c04::replay("C05", &v, path, &findings),
         "C06" => c06::replay(&v, path, &findings),
         "C07" => c07::replay(&v, path, &findings),
+        "C08" => c08::replay("C08", &v, path, &findings),
+        "C09" => c08::replay("C09", &v, path, &findings),
+        "C10" => c08::replay("C10", &v, path, &findings),
         "C14" => c14::replay(&v, path, &findings),
         _ => {
             eprintln!("gev: unknown property in replay file");
